@@ -252,3 +252,41 @@ func pathEq(p []string, q ...string) bool {
 	}
 	return true
 }
+
+// returnsCreateErr: fn hands the error of a BlobCreate with a digest option to its callers unchanged (some return
+// of fn returns that error value itself): a thin ‘open the upload’ helper, whose callers then deal with ‘already
+// exists’.
+func returnsCreateErr(r *Roles, fn *ssa.Function) ssa.CallInstruction {
+	if fn == nil || len(fn.Blocks) == 0 {
+		return nil
+	}
+	res := fn.Signature.Results()
+	if res.Len() == 0 || !an.IsErrorType(res.At(res.Len()-1).Type()) {
+		return nil
+	}
+	var hit ssa.CallInstruction
+	an.Calls(fn, func(call ssa.CallInstruction) {
+		if !isBlobCreate(r, call) {
+			return
+		}
+		if ds, known := withDigestArgs(r, call); known && len(ds) == 0 {
+			return
+		}
+		errv := an.ErrResult(call)
+		if errv == nil {
+			return
+		}
+		an.Instrs(fn, func(in ssa.Instruction) {
+			ret, ok := in.(*ssa.Return)
+			if !ok || len(ret.Results) != res.Len() {
+				return
+			}
+			for _, o := range an.Origins(ret.Results[res.Len()-1]) {
+				if o == errv {
+					hit = call
+				}
+			}
+		})
+	})
+	return hit
+}
